@@ -1,7 +1,18 @@
+import SpecKitV.Lemmas.CalibPoly
 import SpecKitV.Lemmas.Sinusoid
 import SpecKitV.Lemmas.Calib0
 import SpecKitV.Props.AttrsA
 
+#print axioms segDFT_poly_eq
+#print axioms proj_coeff_bound
+#print axioms basis_coeff_le_sqrt
+#print axioms basisT_le_sqrt
+#print axioms calibration_core
+#print axioms calibration_bound_poly
+#print axioms calibration_bound_poly_sqrt
+#print axioms power_spectrum_calibrated_poly
+#print axioms calibration_bound_order0_of_poly
+#print axioms orthoCols_Q4
 #print axioms segDFT_raw_toC
 #print axioms sinusoid_identity
 #print axioms calibration_bound
